@@ -131,7 +131,7 @@ def run_case(case):
     api = build_api(case)
     req, g, lib = pipeline.build_and_generate(api, scratch)
     if not g.ok:
-        return {"verdict": "inconclusive", "why": "generation failed: " + str(g.failure())[:400], "no_retry": True}
+        return pipeline.gen_failed_result(g, api)
     model = rdm.Model(req)
     rng = random.Random(case["seed"] ^ 0xC04)
     numeric = case["numeric"]
